@@ -266,8 +266,9 @@ BOM = b"\xef\xbb\xbf"
 SPLICE_PERIOD = 5
 
 
-def splice_xform(k, period=SPLICE_PERIOD):
-    """backslash-newline after every character whose index is k mod period (never inside a UTF-8 sequence)"""
+def splice_xform(k, period=SPLICE_PERIOD, times=1):
+    """backslash-newline (`times` of them in a row) after every character whose index is k mod period (never
+    inside a UTF-8 sequence)"""
     def f(t):
         out, i, n = bytearray(), 0, 0
         L = len(t)
@@ -277,7 +278,7 @@ def splice_xform(k, period=SPLICE_PERIOD):
                 j += 1
             out += t[i:j]
             if n % period == k and j < L:
-                out += b"\\\n"
+                out += b"\\\n" * times
             n += 1
             i = j
         return bytes(out)
@@ -285,7 +286,8 @@ def splice_xform(k, period=SPLICE_PERIOD):
 
 
 XFORMS = {"crlf": to_crlf, "cr": to_cr, "bom": lambda t: BOM + t, "bom+crlf": lambda t: BOM + to_crlf(t),
-          "splice0+crlf": lambda t: to_crlf(splice_xform(0)(t)), "splice2+cr": lambda t: to_cr(splice_xform(2)(t))}
+          "splice0+crlf": lambda t: to_crlf(splice_xform(0)(t)), "splice2+cr": lambda t: to_cr(splice_xform(2)(t)),
+          "splice3x2": splice_xform(3, times=2), "bom+splice0": lambda t: BOM + splice_xform(0, period=3)(t)}
 
 
 def run_phases(ctx, tree, sel_i, sel_s):
